@@ -71,8 +71,33 @@ def showOutcome : Outcome → String
   | .returned v => "returned " ++ toString v
   | .raised e => "raised " ++ (match e.kind with | .exc => "E" | .baseOnly => "K") ++ ":" ++ toString e.id
 
+/-- overlapping calls: `O e1 e2 l1 l2 …` (enter / leave of thread 1 and 2, each bound to its own connection);
+    answer: what threads 1 and 2 resolve to after every event -/
+def parseEv (s : String) : Option Ev :=
+  match s.toList with
+  | ['e', d] => (String.singleton d).toNat?.map Ev.enter
+  | ['l', d] => (String.singleton d).toNat?.map Ev.leave
+  | _ => none
+
+def showRes (h : Hub) (t : Nat) : String :=
+  match h.resolve t with
+  | some (.thread, c) => toString t ++ ":T:" ++ showCRef c
+  | some (.process, c) => toString t ++ ":P:" ++ showCRef c
+  | none => toString t ++ ":-"
+
+def overlap (evs : List Ev) : String :=
+  let h0 := (worldOf "TP" true).hub
+  let r := evs.foldl (fun (acc : HS × List String) ev =>
+    let s := acc.1.step ev
+    (s, acc.2 ++ [showRes s.hub 1 ++ " " ++ showRes s.hub 2])) (⟨h0, fun _ => none⟩, [])
+  " | ".intercalate r.2
+
 def handle (line : String) : String :=
   match words line with
+  | "O" :: evs =>
+    match evs.mapM parseEv with
+    | some evs => overlap evs
+    | none => "bad-op"
   | [cfg, ac, steps, rs] =>
     match parseSteps steps, parseRaise rs with
     | some steps, some ra =>
